@@ -196,6 +196,7 @@ class Engine:
         if a.c is None and b.c is None and a.t.eq(b.t): return True
         # a concatenation with a literal head / tail against a literal: peel the literal part
         if a.c is not None: a, b = b, a
+        if b.c == '': return slen(a.t) == 0        # the empty string is the only string of length 0
         if b.c is not None and is_app_of(a.t, 'sconcat'):
             h = self.tostr(a.t.arg(0)); tl = self.tostr(a.t.arg(1))
             if h.c is not None:
@@ -228,6 +229,9 @@ class Engine:
         return False
     def strlen(self, a):
         if a.c is not None: return len(a.c)
+        # no Go string is longer than the address space: lengths seen by the program are below 2^48 (stated), so that
+        # len(s) is a non-negative int and sums of a few lengths do not wrap
+        self.ax(('lenb', a.t.get_id()), z3.ULT(slen(a.t), 1 << 48))
         return slen(a.t)
     def ax(self, key, *formulas):
         """instantiate an axiom once per path"""
